@@ -59,6 +59,9 @@ func (p Param) TypeStringEllipsis() string {
 // will return "int". If the parameter is not variadic, this will behave the same
 // as `TypeString`.
 func (p Param) TypeStringVariadicUnderlying() string {
+	if !p.Variadic {
+		return p.TypeString()
+	}
 	typeString := p.TypeStringEllipsis()
 	return strings.Replace(typeString, "...", "", 1)
 }
